@@ -330,6 +330,20 @@ func checkC12(p *Program, r *Report) {
 	// ---- narrowing: offsets are int64; a narrower leaf type needs a bound that fits it
 	rule("C12.narrow")
 	checkOffsetNarrowing(p, r, p.FuncsOf(indexPath), "index")
+
+	// ---- SlimIndex.Get is SlimTrie.Get followed by the reader: the lookup mechanisms of C01 and the
+	// acceptance/narrowing rules of C08 are necessary conditions here as well
+	r.Explanation += " (trie) the lookup mechanisms decided for C01 — 257-bit zone, short-node bit slice, label index ranges, rank at the last bit — and the acceptance and step-narrowing rules of C08 are decided here under C12's name: SlimIndex.Get is SlimTrie.Get followed by the reader."
+	checkBigZone(p, r, "C12.bigzone")
+	checkBitSlice(p, r, "C12.bitslice")
+	checkLabelRangeAs(p, r, "C12.labelrange")
+	checkRankLastBit(p, r, "C12.rank-last-bit")
+	if entry := p.Trie.Func("NewSlimTrie"); entry != nil {
+		if F := findBuilder(p, entry); F != nil {
+			checkNarrowAs(p, r, "C12.trie-narrow", entry, F)
+		}
+	}
+	checkRejectReasonsAs(p, r, "C12.accept")
 }
 
 func init() { checks["C12"] = checkC12 }
